@@ -98,6 +98,41 @@ theorem hasZero_of_known {eqs : List (List Dag × Dag)} {s : Box} {z : List ℚ}
 theorem feasibility_refuted {eqs : List (List Dag × Dag)} {d : ℕ} {s : Box} (h : noZero eqs d s = true) :
     ¬ ∃ p, Box.Mem p s ∧ Zero eqs p := fun ⟨p, hp, hz⟩ => noZero_sound d h p hp hz
 
+
+/-- the slice of a box at the parameters of `w` contains every point of the box with these parameters -/
+theorem mem_slice {e : Box} {vars : List ℕ} {w : List ℚ} {z : List ℝ} (hz : Box.Mem z e)
+    (hp : SameParams vars z (castL w)) (hl : w.length = e.length) : Box.Mem z (slice e vars w) := by
+  rw [Box.Mem, forall₂_iff_getElem?]
+  obtain ⟨hlen, hall⟩ := forall₂_iff_getElem?.1 hz
+  refine ⟨by simp [slice, hlen], fun i a b ha hb => ?_⟩
+  simp only [slice, List.getElem?_map, List.getElem?_zipIdx, Option.map_eq_some_iff] at hb
+  obtain ⟨q, ⟨I, hI, rfl⟩, rfl⟩ := hb
+  simp only [Nat.zero_add]
+  by_cases hv : vars.contains i = true
+  · rw [if_pos hv]; exact hall i a I ha hI
+  · rw [if_neg hv]
+    have hi : i ∉ vars := fun h => hv (List.contains_iff_mem.2 h)
+    have hlt : i < w.length := by
+      have := (List.getElem?_eq_some_iff.1 hI).1
+      omega
+    have hw : w[i]? = some w[i] := List.getElem?_eq_getElem hlt
+    rw [hw]
+    have := hp i hi
+    rw [ha, getElem?_castL, hw] at this
+    simp only [Option.map_some, Option.some.injEq] at this
+    rw [this]
+    exact mem_point_cast _
+
+/-- **a claim refuted on one parameter value**: the existence box contains no zero with the parameters of `w` -/
+theorem refutedSlice_sound {eqs : List (List Dag × Dag)} {e u : Box} {vars : List ℕ} {w : List ℚ} {d : ℕ}
+    (h : refutedSlice eqs e vars w d = true) : ¬ SolClaim eqs e u vars := by
+  simp only [refutedSlice, Bool.and_eq_true] at h
+  intro hc
+  have hpar := ratParamsIn_sound h.1
+  obtain ⟨z, hze, hzp, hz0, -, -⟩ := hc (castL w) hpar
+  have hl : w.length = e.length := by simpa [castL] using hpar.1
+  exact noZero_sound d h.2 z (mem_slice hze hzp hl) hz0
+
 /-! ### non-vacuity -/
 
 section Examples
